@@ -582,6 +582,10 @@ func ciForwarded(r *Rng, a string) string {
 	} else if r.Chance(15) {
 		v = a + ":" + strconv.Itoa(r.Intn(65536))
 	}
+	if r.Chance(6) {
+		// degenerate values: lone or unbalanced quotes and brackets, empty quoted strings, a quoted comma (the list split cuts it)
+		v = Pick(r, []string{"\"", "\"\"", "[", "]", "[]", "\"[", "\"]\"", "\"[\"", "\",\"", " \" ", "\"" + a, a + "\"", "[" + a, a + "]", "\"[]\"", "\"[]:80\""})
+	}
 	forKey := Pick(r, []string{"for", "for", "for", "For", "FOR", "fOr", "for ", " for", "xfor", "fo", "f\xc5\xbfr", "\xe2\x84\xaafor", "by"})
 	forPart := forKey + "=" + v
 	if r.Chance(8) {
